@@ -310,7 +310,7 @@ def WItem.notAckTyp : WItem → Prop
   | .req _ typ _ _ _ _ => typ ≠ tKeepAliveAck
   | _ => True
 
-theorem partInv_step (s : WState) (it : WItem) (hq : it.notAckTyp ∧ it.WF) (h : PartInv s) : PartInv (wr s it) := by
+theorem partInv_step (s : WState) (it : WItem) (hq : it.notAckTyp) (h : PartInv s) : PartInv (wr s it) := by
   rcases stopped_cases s with hs | hs
   · rw [wr_of_stopped hs]; exact h
   · obtain ⟨hr, ha⟩ := h
@@ -322,10 +322,13 @@ theorem partInv_step (s : WState) (it : WItem) (hq : it.notAckTyp ∧ it.WF) (h 
       simp [ackFrame]
     | req c typ payload pid pv w =>
       obtain ⟨h1, h2, h3, _⟩ := wr_req hs c typ payload pid pv w
-      have : typ ≠ tKeepAliveAck := hq.1
+      have : typ ≠ tKeepAliveAck := hq
       rw [h1, h2, h3, List.filter_append, List.filter_append, hr, ha]
       simp [reqFrame, this]
-    | bad c typ dl pid w => exact absurd hq.2 (by simp [WItem.WF])
+    | bad c typ dl pid w =>
+      have hb : (wr s (.bad c typ dl pid w)).out = s.out ∧ (wr s (.bad c typ dl pid w)).ackOut = s.ackOut ∧
+          (wr s (.bad c typ dl pid w)).reqOut = s.reqOut := by unfold wr; simp [hs]
+      rw [hb.1, hb.2.1, hb.2.2]; exact ⟨hr, ha⟩
     | setVer v =>
       obtain ⟨h1, h2, h3, _⟩ := wr_setVer hs v
       rw [h1, h2, h3]; exact ⟨hr, ha⟩
